@@ -70,6 +70,13 @@ Theorem C06_clone_drops_nothing : forall c s r s',
   lite s -> rt_clone c s = Ok r s' -> dks s' = dks s /\ dvs s' = dvs s /\ lite s'.
 Proof. exact T_C06_clone. Qed.
 
+(* clone_from: everything the destination held - in either of its tables - is dropped exactly
+   once (the ledger grows by a permutation of its previous elements), and nothing else is *)
+Theorem C06_clone_from_drops_destination_once : forall c src s u s',
+  lite s -> hbc (main src) -> rt_clone_from c src s = Ok u s' ->
+  dks s' ≡ₚ map ekid (elems (s_rt s)) ++ dks s /\ dvs s' ≡ₚ map ev (elems (s_rt s)) ++ dvs s.
+Proof. exact T_C06_clone_from. Qed.
+
 Theorem C06_eq_drops_nothing : forall other s b s',
   lite s -> map_equal other s = Ok b s' -> dks s' = dks s /\ dvs s' = dvs s /\ lite s'.
 Proof. exact T_C06_eq. Qed.
@@ -137,6 +144,7 @@ Print Assumptions C06_reserve_drops_nothing.
 Print Assumptions C06_shrink_drops_nothing.
 Print Assumptions C06_iter_drops_nothing.
 Print Assumptions C06_clone_drops_nothing.
+Print Assumptions C06_clone_from_drops_destination_once.
 Print Assumptions C06_eq_drops_nothing.
 Print Assumptions C06_clear_drops_each_once.
 Print Assumptions C06_drop_map_drops_each_once.
